@@ -31,6 +31,15 @@ def step (ifs : IfTable) (ws : List String) : Option (IfTable × String) :=
   let bad : Option (IfTable × String) := some (ifs, "bad-op")
   match ws with
   | ["ifs", t] => some (parseIfs t, "ok")
+  | ["convunix", nw, name] =>
+    match bytesOfHex nw, bytesOfHex name with
+    | some nw, some name =>
+      let sa := unixAddrToSockaddr (strOf nw) (strOf name)
+      let back := match sa.bind sockaddrToUnixName with
+        | some n => s!"back=unix:{hexOfStr n}"
+        | none => "back=nil"
+      some (ifs, saStr sa ++ " " ++ back)
+    | _, _ => bad
   | [cv, ip, nil, port, zone] =>
     if cv ≠ "conv" ∧ cv ≠ "convudp" then bad else
     match bytesOfHex ip, parseInt port, bytesOfHex zone with
